@@ -1,5 +1,5 @@
 SPECIFICATION Spec
 CONSTANTS MaxSegs = 3 MaxOps = 3 MaxOpsFail = 2 Defect = "none" Export = FALSE
-INVARIANTS OnlyNamedDeviation ReleasedIsPrefix CleanMeansEqual SourceErrorSurfaces
+INVARIANTS OnlyNamedDeviation ReleasedIsPrefix CleanMeansEqual SourceErrorSurfaces CacheIntact
 CONSTRAINT ExportScripts
 CHECK_DEADLOCK FALSE
